@@ -244,6 +244,7 @@ class Interp:
         self.nalloc = 1000  # ids of interpreter-made allocations start here
         self.parstack = []
         self.depth = 0
+        self._nonint_const = False
         env = {}
         try:
             for a, v in zip(proc.args, argvals):
@@ -311,8 +312,12 @@ class Interp:
                     val = int(val)
         if self.parstack:
             self._par_note(2 if reduce else 1, (st.id, off))
-        if self.want_exact and typ is not None and not fits(val, typ):
-            self.res.exact_ok = False
+        if self.want_exact and typ is not None:
+            if not fits(val, typ):
+                self.res.exact_ok = False
+            elif self._nonint_const and type(typ).__name__ in _INT_RANGES:
+                # a fractional literal is cast to the integer type in C
+                self.res.exact_ok = False
         st.data[off] = val
         if self.res.trace is not None:
             self.res.trace.append(("+" if reduce else "W", st.id, off, val))
@@ -338,7 +343,10 @@ class Interp:
                 self.event("rank", "indexing a control value", e)
             return v
         if c is _S.Const:
-            return num(e.val)
+            v = num(e.val)
+            if self.want_exact and type(v) is not int and type(v) is not bool:
+                self._nonint_const = True
+            return v
         if c is _S.BinOp:
             op = e.op
             if op == "and":
@@ -512,6 +520,7 @@ class Interp:
             if type(v) is not View:
                 self.event("type", "assignment to a control value", s)
             idx = [self.ev(i, env) for i in s.idx]
+            self._nonint_const = False
             rhs = self.ev(s.rhs, env)
             if type(rhs) is View:
                 if rhs.shape:
